@@ -27,7 +27,7 @@ type c15Params struct {
 	Prefix       int  `json:"prefix_steps"` // the first Prefix steps populate a writable instance
 	BlankDrive   bool `json:"blank_drive,omitempty"`
 	BlankBlocks  int  `json:"blank_blocks,omitempty"`
-	WrongKey     bool `json:"wrong_key"`    // the read-only instance holds a different private key / signature key
+	WrongKey     bool `json:"wrong_key"` // the read-only instance holds a different private key / signature key
 }
 
 var c15Mutators = map[string]bool{"create": true, "mkdir": true, "mkdirall": true, "remove": true, "removeall": true, "rename": true,
@@ -52,6 +52,7 @@ func c15Run(f failer, cfg world.Cfg, p c15Params, next func(i int, mr *hist.MRun
 		steps = append(steps, s)
 		res := base.Do(s)
 		if res.Hang != nil {
+			busyIsInconclusive(f, res.Hang)
 			failf(f, "populate step %d %s: %s", i, s, res.Hang.Detail)
 		}
 		mr.Do(s)
@@ -187,6 +188,7 @@ func c15Run(f failer, cfg world.Cfg, p c15Params, next func(i int, mr *hist.MRun
 		steps = append(steps, s)
 		res := ro.Do(s)
 		if res.Hang != nil {
+			busyIsInconclusive(f, res.Hang)
 			failf(f, "step %d %s on the read-only instance: %s", i, s, res.Hang.Detail)
 		}
 		if res.Skipped {
@@ -253,6 +255,7 @@ func c15Run(f failer, cfg world.Cfg, p c15Params, next func(i int, mr *hist.MRun
 			}
 			tres := twin.Do(ts)
 			if tres.Hang != nil {
+				busyIsInconclusive(f, tres.Hang)
 				failf(f, "twin: %s", tres.Hang.Detail)
 			}
 			if s.Op == "openfile" {
